@@ -75,6 +75,7 @@ var ingressAnnotations = []annChoice{
 	{"redirect-to", []string{"https://elsewhere.local"}},
 	{"waf", []string{"modsecurity"}},
 	{"oauth", []string{"oauth2_proxy"}},
+	{"oauth-uri-prefix", []string{"/oauth2", "/", "", "/oauth2/"}},
 	{"auth-url", []string{"http://10.9.9.9:8000/auth", "http://10.9.9.8:8000/auth", "http://10.9.9.7:8001/check", "svc://a/s2:80", "svc://missing:80", "http://authhost.local/x", "bad::url", "https://10.9.9.6/auth", "ftp://10.9.9.9/x", "http://nohost.local/x", "svc://s2", "svc://a/s2:81", "svc://s1:80", "svc://s1:80/check", "svc://a/s2:8080", "svc://s1:8080/check"}},
 	{"auth-external-placement", []string{"frontend", "backend"}},
 	{"session-cookie-preserve", []string{"true"}},
